@@ -203,7 +203,7 @@ def run(ctx):
     # large traces: more than 8192 wires / 4096 private variables / 4096 constraints / 64 KiB per section
     # (thorough: more than 65535 of each)
     # ... and traces whose wire count (1 + variables) is EXACTLY 256 / 1024 / 2048 / 4096, or one more / less
-    traces = [e5.big_trace(nv, 7, p) for nv in (254, 255, 256, 1022, 1023, 1024, 2047, 4095, 8191)] + [e5.big_trace(9001, 4500, p), e5.big_trace(300, 1200, p)] + ([e5.big_trace(70001, 66000, p)] if ctx.thorough else []) + traces
+    traces = [e5.big_trace(nv, 7, p) for nv in (254, 255, 256, 1022, 1023, 1024, 2047, 4095, 8191)] + [e5.big_trace(9001, 4500, p), e5.big_trace(300, 1200, p)] + ([e5.big_trace(70001, 100000, p)] if ctx.thorough else []) + traces
     nchunks = common.NCPU * 4
     chunks = [traces[i::nchunks] for i in range(nchunks)]
     results = common.pool_map(_task, [(c, p) for c in chunks if c], init=_init)
